@@ -444,7 +444,7 @@ def run(rep, ctx):
 
     broken = []
     for fn_, args_ in ((rule_X1, (rep, funcs)), (rule_A1, (rep, funcs, F)), (rule_P1, (rep, funcs)), (rule_D1, (rep, funcs)), (rule_K1, (rep, funcs)), (rule_M1, (rep, funcs)),
-                       (rule_P2, (rep, funcs)), (rule_R1, (rep, funcs)), (rule_H1, (rep, repo)), (rule_H2, (rep, repo)), (rule_K2, (rep, repo)), (rule_L1, (rep, funcs)), (rule_L2, (rep, repo))):
+                       (rule_P2, (rep, funcs)), (rule_R1, (rep, funcs)), (rule_H1, (rep, repo)), (rule_H2, (rep, repo)), (rule_K2, (rep, repo)), (rule_L1, (rep, funcs)), (rule_L2, (rep, repo)), (rule_T2, (rep, repo))):
         try:
             fn_(*args_)
         except AnalysisBroken as ab:
@@ -884,6 +884,26 @@ def local_inits(f):
 
 
 F_K1 = [None]
+
+
+def rule_T2(rep, repo):
+    """the type computed for a linear body (it selects the comparison tolerance, the rounding of right-hand sides and the type of
+    result variables): the clause C06.B1|linear-type, read on the same function"""
+    t2 = rep.rule("C01.T2", "TABLE", "a linear body is integer-valued only if every variable is integer and every coefficient integral", floor=1)
+    d = export(U, fn=[r"mp::BoundComputations::ComputeBoundsAndType"], repo=repo)
+    F = Facts([d])
+    lin = [f for f in F.funcs if f.qn == "mp::BoundComputations::ComputeBoundsAndType" and not f.is_dependent() and f.cfg is not None and f.params and
+           "LinTerms" in (f.params[0].get("t") or "") and "Quad" not in (f.params[0].get("t") or "")]
+    if not lin:
+        raise AnalysisBroken("C01.T2: ComputeBoundsAndType(LinTerms) not found")
+    f = lin[0]
+    ty = [n for n in f.walk() if n["k"] == "IfStmt" and "CONTINUOUS" in render(kids(n)[1])]
+    ok = len(ty) == 1 and "INTEGER!=model.var_type(v)||!is_integer(c)" in nt(render(kids(ty[0])[0])).replace("var::", "").replace("mp::", "")
+    init_int = any(n["k"] == "BinaryOperator" and n.get("op") == "=" and "type_" in render(kids(n)[0]) and "INTEGER" in render(kids(n)[1]) for n in f.walk()) or \
+        any("INTEGER" in render(v) for v in f.walk() if v["k"] == "VarDecl")
+    t2.check(ok, "linear-type", short_loc(f.loc), "the sum becomes CONTINUOUS as soon as a variable is not integer or a coefficient is not integral",
+             "the type of a linear body no longer depends on its coefficients (or variables): 0.5*x over an integer x is declared integer, so strict comparisons get the "
+             "integer tolerance, fractional right-hand sides are rounded and auxiliary variables are declared integer - feasible points are cut off")
 
 
 def rule_L2(rep, repo):
